@@ -9,7 +9,7 @@ import os
 
 from . import common
 
-PROOFS = ["proofs/CacheProofs.v", "models/Cache.v"]
+PROOFS = ["proofs/CacheProofs.v", "models/Cache.v", "proofs/CacheOptionsProofs.v", "models/CacheOptions.v"]
 BIG_JCS = 128
 
 # concrete Go keys: (type, value). Different types with equal numbers are different map keys
@@ -39,6 +39,7 @@ def run_ft(binary, lines, chunk=120, env=None, timeout=600):
     """One process per <chunk> scripts (leaked tickers of earlier scenarios cost clock jumps)."""
     out = []
     group = []
+    last_scale = [None]
 
     def flush():
         if group:
@@ -52,11 +53,24 @@ def run_ft(binary, lines, chunk=120, env=None, timeout=600):
             flush()
             out.extend(common.run_impl(binary, [l], env=env or FT_ENV, timeout=120))
             continue
+        # scripts on the scale of the default expiries (1 s) and scripts on the ns/us scale never share a process: a
+        # sweep ticker configured for one scale that (wrongly) survives into the other would fire ~10^9 times
+        sc = _scale(l)
+        if group and sc != last_scale[0]:
+            flush()
+        last_scale[0] = sc
         group.append(l)
         if len(group) >= chunk:
             flush()
     flush()
     return out
+
+
+def _scale(line):
+    for tok in line.split():
+        if tok.startswith("ne=") and int(tok[3:]) >= 1000000:
+            return "large"
+    return "small"
 
 
 def _huge(line):
@@ -77,11 +91,22 @@ class Script:
         self.end = None
         self.wd = None
         self.meta = {}
+        # option list passed to NewCache (tokens E<n>:<e>, P<n>, J<n>); None = the canonical minimal list: every
+        # option whose value is the default of cachex/option.go is omitted. (ne, ee, par, jcs) is what the cache
+        # SHOULD have: check_batch recomputes it from the option list with the extracted copt_create.
+        self.opts = None
+        self.legacy = False   # a corpus line without opts= : the harness passes all three options
 
     def copy(self):
         s = Script(self.ne, self.ee, self.par, self.jcs, self.keys, self.ld, self.acts, self.trials)
         s.meta = dict(self.meta)
+        s.opts, s.legacy = self.opts, self.legacy
         return s
+
+    def opt_tokens(self):
+        if self.opts is not None:
+            return list(self.opts)
+        return minimal_opts(self.ne, self.ee, self.par, self.jcs)
 
     def used_instants(self):
         return set(a[0] for a in self.acts)
@@ -102,13 +127,116 @@ class Script:
         self.finalize()
         ld = "|".join(",".join("%d.%d.%d" % x for x in l) for l in self.ld)
         acts = ";".join(("%d/%s/%d/%d/%d" % a) if a[1] == "S" else ("%d/%s/%d" % a[:3]) for a in self.acts)
-        return "ftc ne=%d ee=%d par=%d jcs=%d trials=%d wd=%d end=%d keys=%s ld=%s acts=%s" % (
-            self.ne, self.ee, self.par, self.jcs, self.trials, self.wd, self.end,
+        opts = "" if self.legacy else " opts=%s" % (",".join(self.opt_tokens()) or "-")
+        return "ftc ne=%d ee=%d par=%d jcs=%d%s trials=%d wd=%d end=%d keys=%s ld=%s acts=%s" % (
+            self.ne, self.ee, self.par, self.jcs, opts, self.trials, self.wd, self.end,
             ",".join("%s:%s" % k for k in self.keys), ld, acts)
+
+
+DEFAULTS = dict(ne=1000000000, ee=100000000, par=1, jcs=128)   # cachex/option.go createArguments (only used to OMIT options;
+#                                                                the expected configuration comes from the model, expected_configs)
+
+
+def minimal_opts(ne, ee, par, jcs):
+    o = []
+    if (ne, ee) != (DEFAULTS["ne"], DEFAULTS["ee"]):
+        o.append("E%d:%d" % (ne, ee))
+    if par != DEFAULTS["par"]:
+        o.append("P%d" % par)
+    if jcs != DEFAULTS["jcs"]:
+        o.append("J%d" % jcs)
+    return o
+
+
+def random_opts(rng, ne, ee, par, jcs):
+    """An option list that should produce (ne, ee, par, jcs): defaults omitted (sometimes spelled out), random order,
+    sometimes an earlier option of the same kind that a later one overrides, WithParallel(n <= 0) is ignored."""
+    groups = []
+    e = []
+    if (ne, ee) != (DEFAULTS["ne"], DEFAULTS["ee"]) or rng.chance(1, 8):
+        if rng.chance(1, 5):
+            e.append("E%d:%d" % rng.choice([(16, 16), (3200, 160), (2 * ne, ee), (DEFAULTS["ne"], DEFAULTS["ee"])]))
+        e.append("E%d:%d" % (ne, ee))
+    groups.append(e)
+    pl = []
+    if par != DEFAULTS["par"] or rng.chance(1, 8):
+        if rng.chance(1, 5):
+            pl.append("P%d" % rng.choice([2, 3, 8]))
+        pl.append("P%d" % par)
+        if rng.chance(1, 5):
+            pl.append("P%d" % rng.choice([0, -1]))
+    elif rng.chance(1, 6):
+        pl.append("P%d" % rng.choice([0, -2]))
+    groups.append(pl)
+    j = []
+    if jcs != DEFAULTS["jcs"] or rng.chance(1, 8):
+        if rng.chance(1, 5):
+            j.append("J%d" % rng.choice([1, 7, 64]))
+        j.append("J%d" % jcs)
+    groups.append(j)
+    # interleave the groups keeping the order inside each group
+    out = []
+    groups = [g for g in groups if g]
+    while groups:
+        g = rng.choice(groups)
+        out.append(g.pop(0))
+        groups = [x for x in groups if x]
+    return out
+
+
+class Multi:
+    """Several scripts = several caches in ONE process: created in this order, run concurrently on one virtual time line."""
+
+    def __init__(self, subs):
+        self.subs = list(subs)
+
+    def line(self):
+        return "ftm " + " || ".join(s.line() for s in self.subs)
+
+
+def subs_of(item):
+    return item.subs if isinstance(item, Multi) else [item]
+
+
+def split_outputs(item, out):
+    """[(script, output of that script)] of one harness output line"""
+    if isinstance(item, Multi):
+        parts = out.split(" || ")
+        if len(parts) != len(item.subs):
+            return [(sc, out) for sc in item.subs]
+        return list(zip(item.subs, parts))
+    return [(item, out)]
+
+
+def expected_configs(chk, items):
+    """(ne, ee, par, jcs) of every script := models/CacheOptions.v copt_create of ITS option list (extracted)."""
+    scs = [sc for it in items for sc in subs_of(it) if not sc.legacy]
+    if not scs:
+        return
+    outs = common.run_model(["copt %s" % (",".join(sc.opt_tokens()) or "-") for sc in scs])
+    for sc, o in zip(scs, outs):
+        p = o.split()
+        if len(p) != 4:
+            chk.infra_errors.append("option list %s: the model gives %s (generator produced a list NewCache rejects?)" % (sc.opt_tokens(), o))
+            continue
+        par, ne, ee, jcs = (int(x) for x in p)
+        if (ne, ee, par, jcs) != (sc.ne, sc.ee, sc.par, sc.jcs):
+            chk.infra_errors.append("option list %s: generator meant %s, copt_create gives %s" % (sc.opt_tokens(), (sc.ne, sc.ee, sc.par, sc.jcs), (ne, ee, par, jcs)))
+        sc.ne, sc.ee, sc.par, sc.jcs = ne, ee, par, jcs
 
 
 def parse_line(line):
     t = line.split()
+    if t[0] == "ftm":
+        parts, cur = [], []
+        for tok in t[1:]:
+            if tok == "||":
+                parts.append(cur)
+                cur = []
+            else:
+                cur.append(tok)
+        parts.append(cur)
+        return Multi([parse_line(" ".join(p)) for p in parts])
     f = dict(x.split("=", 1) for x in t[1:])
     keys = [tuple(k.split(":", 1)) for k in f["keys"].split(",")]
     ld = [[tuple(int(y) for y in x.split(".")) for x in ks.split(",")] for ks in f["ld"].split("|")]
@@ -122,6 +250,10 @@ def parse_line(line):
                 acts.append((int(p[0]), p[1], int(p[2]), 0, 0))
     sc = Script(int(f["ne"]), int(f["ee"]), int(f["par"]), int(f["jcs"]), keys, ld, acts, int(f.get("trials", "1")))
     sc.end, sc.wd = int(f["end"]), int(f["wd"])
+    if "opts" in f:
+        sc.opts = [] if f["opts"] in ("-", "") else f["opts"].split(",")
+    else:
+        sc.legacy = True
     if sc.ne >= 2 ** 61:
         sc.meta["end"], sc.meta["wd"] = sc.end, sc.wd   # line() keeps the horizon of the parsed line (the default formula leaves int64)
     return sc
@@ -172,6 +304,8 @@ class Log:
                     self.ret[int(p[1])] = ("g", int(p[2]), vcode(p[3]))
                 elif kind == "rS":
                     self.ret[int(p[1])] = ("S", int(p[2]))
+                elif kind == "rC":
+                    self.ret[int(p[1])] = ("C", int(p[2]))
                 elif kind == "rf":
                     self.final[int(p[1])] = (int(p[2]), vcode(p[3]), int(p[4]))
                 elif kind == "ls":
@@ -219,15 +353,33 @@ def build_histories(sc, log, sweeps=()):
         if ev[1] in (0, 2):
             groups.setdefault((ev[0], ev[4]), []).append(idx)
     ties = [g for g in groups.values() if len(g) >= 2 and any(evs[i][1] == 2 for i in g)]
+
+    def is_get(i):
+        return evs[i][3] in ("G", "g")
+
+    def nperm(g):
+        # orders of the group up to the relative order of its Get calls (pure reads commute): n! / m!
+        n = 1
+        m = sum(1 for i in g if is_get(i))
+        for i in range(max(m, 1) + 1, len(g) + 1):
+            n *= i
+        return n
+
     nvar = 1
     for g in ties:
-        n = 1
-        for i in range(2, len(g) + 1):
-            n *= i
-        nvar *= n
+        nvar *= nperm(g)
     if nvar > MAX_VARIANTS:
         return None, len(ties), "too many same-instant orders (%d)" % nvar
-    perms = [list(itertools.permutations(g)) for g in ties]
+
+    def perms_of(g):
+        gets = [i for i in g if is_get(i)]
+        out = []
+        for p in itertools.permutations(g):
+            if [i for i in p if is_get(i)] == gets:
+                out.append(p)
+        return out
+
+    perms = [perms_of(g) for g in ties]
     variants = []
     for combo in itertools.product(*perms) if ties else [()]:
         order = list(range(len(evs)))
@@ -352,6 +504,8 @@ def compare_variant(sc, log, toks, outidx, mout, exact_load_return=True):
         elif kind == "S":
             if r[1] != tc:
                 return "Set action %d called at %d returned at %d" % (a, tc, r[1])
+        elif kind in ("C", "D"):
+            continue   # a garbage collection: not an event of the cache
         else:
             if kind in ("G", "g"):
                 o = outs[outidx[a]]
@@ -585,7 +739,7 @@ def monitor_c05(sc, log):
     if True:
         ends = {(k, j): (t, v, e) for (k, j, t, v, e) in log.ends}
         for a, act in enumerate(sc.acts):
-            if act[1] not in ("L", "G") or act[2] in set_keys or a not in log.call:
+            if act[1] not in ("L", "G", "g") or act[2] in set_keys or a not in log.call:
                 continue
             k, tc = act[2], log.call[a]
             if not worker_idle_at(tc, k):
@@ -601,7 +755,23 @@ def monitor_c05(sc, log):
             cur = before[-1] if before else None
             age_ok = cur is not None and tc - cur[0] < 2 * expire_of(sc, cur[2])
             fresh = cur is not None and tc - cur[0] < expire_of(sc, cur[2])
-            if act[1] == "G":
+            if act[1] == "g":
+                # Cache.Get1 = first component of what Get2 returns in the same situation, at the same instant
+                r = log.ret[a]
+                if age_ok:
+                    want = (cur[1], tc)
+                elif running:
+                    en = ends.get((k, running[0][0]))
+                    if en is None:
+                        continue
+                    want = (en[1], en[0])
+                else:
+                    want = (0, tc)
+                if (r[2], r[1]) != want:
+                    state = "fresh" if fresh else ("stale (E <= age < 2E)%s" % (", refresh running" if running else "") if age_ok else ("rotted/absent, load in flight" if running else "rotted/absent, no load in flight"))
+                    return ("get1-case-table", "Get1 action %d of key %d at %d: entry is %s (last completion %s, E=%s) so it must return %d at %d (first component of Get2's answer), got %d at %d" % (
+                        a, k, tc, state, cur[:3] if cur else None, expire_of(sc, cur[2]) if cur else None, want[0], want[1], r[2], r[1]))
+            elif act[1] == "G":
                 r = log.ret[a]
                 if age_ok:
                     want = (cur[1], cur[2], tc)
@@ -637,6 +807,25 @@ def monitor_c05(sc, log):
                 if (fin[1], fin[2]) != tuple(want):
                     return ("load-case-table", "Load action %d of key %d at %d: Future resolved to (%d,%d), the property's case table gives (%d,%d) (last completion %s)" % (
                         a, k, tc, fin[1], fin[2], want[0], want[1], cur[:3] if cur else None))
+    # Get1 next to Get2: a Get1 and a Get2 of one key called at the same instant, nothing else of that key happening at
+    # that instant (no Load/Set call, no loader return): Get1's value is Get2's value and both return at the same instant
+    by_inst = {}
+    for a, act in enumerate(sc.acts):
+        if act[1] in ("G", "g", "L", "S") and a in log.call:
+            by_inst.setdefault((act[2], log.call[a]), []).append(a)
+    for (k, tc), group in by_inst.items():
+        kinds = [sc.acts[a][1] for a in group]
+        if "g" not in kinds or "G" not in kinds or "L" in kinds or "S" in kinds:
+            continue
+        if any(c[0] == tc for c in comp.get(k, [])):
+            continue
+        g2 = [a for a in group if sc.acts[a][1] == "G"][0]
+        for a in group:
+            if sc.acts[a][1] == "g":
+                r1, r2 = log.ret[a], log.ret[g2]
+                if (r1[2], r1[1]) != (r2[2], r2[1]):
+                    return ("get1-vs-get2", "key %d at %d: Get1 (action %d) returned %d at %d, Get2 (action %d) called at the same instant returned (%d,%d) at %d" % (
+                        k, tc, a, r1[2], r1[1], g2, r2[2], r2[3], r2[1]))
     # at most one refresh per stale window (keys without Set; loads that do not queue)
     nsets = set(act[2] for act in sc.acts if act[1] == "S")
     for k, cs in comp.items():
@@ -655,46 +844,55 @@ def monitor_c05(sc, log):
 
 # ------------------------------------------------------------------ running a batch
 def check_batch(chk, binary, stream, scripts, monitor, feed_sweeps=None, exact_load_return=True, nontrivial=None):
-    """Runs scripts on the implementation, replays each trial's log in the model (every
-    same-instant order), compares, applies the monitor. Returns list of (script, [Log])."""
+    """Runs scripts (Script or Multi) on the implementation, replays each trial's log in the model (every
+    same-instant order) with the configuration copt_create gives for the script's OWN option list, compares,
+    applies the monitor (+ monitor_config). Returns list of (script, [Log]) per Script (Multis flattened)."""
     if not scripts:
         return []
+    expected_configs(chk, scripts)
     lines = [s.line() for s in scripts]
     try:
         impl = run_ft(binary, lines)
     except common.ImplCrash as e:
         chk.infra_errors.append("ftcache crashed or timed out (stream %s): %s" % (stream, str(e)[-1200:]))
         return []
-    work = []   # (script index, trial, log, variants)
+    work = []   # (script, report line, trial, log, variants, base)
     mlines = []
     results = []
-    for si, (sc, line, out) in enumerate(zip(scripts, lines, impl)):
-        logs = split_trials(out) if not out.startswith("PANIC") and out != "BADCASE" else []
-        results.append((sc, logs))
-        if not logs:
-            chk.monitor_fail("panic", line, out[:600], "the harness could not run the script: " + out[:300])
+    si = -1
+    for item, line, whole in zip(scripts, lines, impl):
+        if whole.startswith("PANIC") or whole == "BADCASE":
+            chk.monitor_fail("panic", line, whole[:600], "the harness could not run the script: " + whole[:300])
+            for sc in subs_of(item):
+                results.append((sc, []))
             continue
-        for ti, log in enumerate(logs):
-            mf = monitor(sc, log)
-            if mf:
-                chk.monitor_fail(mf[0], line, log.text[:3000], mf[1])
-            sweeps = ()
-            if feed_sweeps is not None and feed_sweeps(si, ti):
-                sweeps = tuple(range(4 * sc.ne, sc.end + 1, 4 * sc.ne))
-            variants, nties, note = build_histories(sc, log, sweeps)
-            chk.cov["ties"] = chk.cov.get("ties", 0) + nties
-            if variants is None:
-                if note.startswith("too many"):
-                    chk.cov["skipped_too_many_orders"] = chk.cov.get("skipped_too_many_orders", 0) + 1
-                else:
-                    chk.diverge(stream, line, "", log.text[:3000], note)
+        for sc, out in split_outputs(item, whole):
+            si += 1
+            logs = split_trials(out) if not out.startswith("PANIC") else []
+            results.append((sc, logs))
+            if not logs:
+                chk.monitor_fail("panic", line, out[:600], "the harness could not run the script: " + out[:300])
                 continue
-            work.append((si, ti, log, variants, len(mlines)))
-            for toks, _ in variants:
-                mlines.append(model_line(sc, toks))
+            for ti, log in enumerate(logs):
+                mf = monitor(sc, log) or monitor_config(sc, log)
+                if mf:
+                    chk.monitor_fail(mf[0], line, log.text[:3000], mf[1] + cfg_note(sc, item))
+                sweeps = ()
+                if feed_sweeps is not None and feed_sweeps(si, ti):
+                    sweeps = tuple(range(4 * sc.ne, sc.end + 1, 4 * sc.ne))
+                variants, nties, note = build_histories(sc, log, sweeps)
+                chk.cov["ties"] = chk.cov.get("ties", 0) + nties
+                if variants is None:
+                    if note.startswith("too many"):
+                        chk.cov["skipped_too_many_orders"] = chk.cov.get("skipped_too_many_orders", 0) + 1
+                    else:
+                        chk.diverge(stream, line, "", log.text[:3000], note)
+                    continue
+                work.append((sc, item, line, ti, log, variants, len(mlines)))
+                for toks, _ in variants:
+                    mlines.append(model_line(sc, toks))
     mouts = common.run_model(mlines) if mlines else []
-    for (si, ti, log, variants, base) in work:
-        sc = scripts[si]
+    for (sc, item, line, ti, log, variants, base) in work:
         notes = []
         ok = False
         for vi, (toks, outidx) in enumerate(variants):
@@ -706,21 +904,96 @@ def check_batch(chk, binary, stream, scripts, monitor, feed_sweeps=None, exact_l
         chk.cov["disagreements_checked"] += 1
         chk.cov["programs"] += 1
         nt = nontrivial(sc, log) if nontrivial else True
-        chk.count_case(stream, lines[si] + "#%d" % ti if ti else lines[si], nt)
+        chk.count_case(stream, sc.line() + ("#%d" % ti if ti else "") + ("@multi" if isinstance(item, Multi) else ""), nt)
         if ok:
             chk.cov["traces_validated_against_impl"] += 1
             chk.cov["model_events"] = chk.cov.get("model_events", 0) + len(variants[0][0])
         else:
-            chk.diverge(stream, lines[si], mouts[base][:1500], log.text[:3000],
-                        notes[0] + (" (and %d other same-instant order(s) also disagree)" % (len(notes) - 1) if len(notes) > 1 else ""))
+            chk.diverge(stream, line, mouts[base][:1500], log.text[:3000],
+                        notes[0] + (" (and %d other same-instant order(s) also disagree)" % (len(notes) - 1) if len(notes) > 1 else "") + cfg_note(sc, item))
     if results and results[0][1]:
         sc, logs = results[0]
         chk.sample(dict(stream=stream, case=lines[0][:600], impl=logs[0].text[:600]), limit=12)
     return results
 
 
+def cfg_note(sc, item):
+    if sc.legacy:
+        return ""
+    n = " [cache created with options (%s): normalExpire=%d errorExpire=%d parallel=%d jobChanSize=%d" % (
+        ",".join(sc.opt_tokens()) or "none", sc.ne, sc.ee, sc.par, sc.jcs)
+    if isinstance(item, Multi):
+        n += "; cache #%d of %d in this process" % (item.subs.index(sc), len(item.subs))
+    return n + "]"
+
+
+def monitor_config(sc, log):
+    """The cache behaves as configured by ITS OWN option list: never more than <parallel> loaders at once; a job waits
+    only while <parallel> loaders are running; a Load blocks only when <jobChanSize> jobs can be pending."""
+    if log.bad or log.panic or log.hang:
+        return None
+    ends = {(k, j): t for (k, j, t, v, e) in log.ends}
+    ivs = [(t, ends.get((k, j)), k, j) for (k, j, t) in log.starts]
+
+    def busy(t):
+        return sum(1 for (s0, e0, _, _) in ivs if s0 <= t and (e0 is None or e0 > t))
+
+    for (s0, e0, k, j) in ivs:
+        n = busy(s0)
+        if n > sc.par:
+            return ("config-parallel", "%d loaders running at t=%d (key %d invocation %d just started) but the cache has parallel=%d workers" % (n, s0, k, j, sc.par))
+    # first Load of a key that is never Set: it creates a job; if its loader starts later than the call, all workers were busy
+    set_keys = set(act[2] for act in sc.acts if act[1] == "S")
+    first = {}
+    for a, act in enumerate(sc.acts):
+        if act[1] == "L" and a in log.call and act[2] not in set_keys:
+            if act[2] not in first or log.call[a] < log.call[first[act[2]]]:
+                first[act[2]] = a
+    for k, a in first.items():
+        tc = log.call[a]
+        st = [t for (k2, j, t) in log.starts if k2 == k and j == 0]
+        if st and st[0] > tc and busy(tc) < sc.par and not any(e0 == tc for (_, e0, _, _) in ivs):
+            return ("config-parallel", "the job of Load action %d (key %d, called at %d) started only at %d although just %d loader(s) were running at %d: the cache should have parallel=%d workers" % (
+                a, k, tc, st[0], busy(tc), tc, sc.par))
+    # a Load returns later than called only when the job queue is full: at most one job per earlier Load call
+    for a, act in enumerate(sc.acts):
+        if act[1] != "L" or a not in log.call or a not in log.ret:
+            continue
+        tc, tr = log.call[a], log.ret[a][1]
+        if tr > tc:
+            created = sum(1 for b, bct in enumerate(sc.acts) if bct[1] == "L" and b != a and b in log.call and log.call[b] <= tc)
+            started = sum(1 for (s0, _, _, _) in ivs if s0 < tc)
+            if created - started < sc.jcs:
+                return ("config-jobchan", "Load action %d called at %d returned at %d (blocked) although at most %d job(s) can be pending: the cache should have jobChanSize=%d" % (
+                    a, tc, tr, created - started, sc.jcs))
+    return None
+
+
+def monitor_items(chk, binary, items, monitor, chunk=120):
+    """monitors only (used by the failing-input searches)"""
+    outs = run_ft(binary, [it.line() for it in items], chunk=chunk)
+    for it, whole in zip(items, outs):
+        if whole.startswith("PANIC"):
+            chk.monitor_fail("panic", it.line(), whole[:500], whole[:300])
+            continue
+        for sc, out in split_outputs(it, whole):
+            if out.startswith("PANIC"):
+                chk.monitor_fail("panic", it.line(), out[:500], out[:300])
+                continue
+            for log in split_trials(out):
+                mf = monitor(sc, log) or monitor_config(sc, log)
+                if mf:
+                    chk.monitor_fail(mf[0], it.line(), log.text[:3000], mf[1] + cfg_note(sc, it))
+
+
 # ------------------------------------------------------------------ generators
 EXPIRES = [(1600, 1600), (1600, 800), (3200, 160), (1000, 999), (4800, 1600), (48, 16), (160, 1), (2, 1), (16000, 4000)]
+# explicit expiries of the caches that share a process with a cache created WITHOUT WithExpire (1 s / 100 ms): within a
+# factor 1000 of the defaults, so that the sweep tickers of all caches of the process fire at most a few thousand times
+# during the longest script (each tick is a jump of the virtual clock)
+EXPIRES_LARGE = [(1600000, 1600000), (3200000, 160000), (48000000, 16000000), (1600000000, 800000000), (2000000000, 100000000),
+                 (320000000, 100000000)]
+DEFAULT_EXPIRE = (DEFAULTS["ne"], DEFAULTS["ee"])
 
 
 def pick_keys(rng, n):
@@ -753,10 +1026,11 @@ def free_instant(used, t):
     return t
 
 
-def base_script(rng, nkeys=None, par=None, jcs=BIG_JCS, nacts=None, horizon_mult=12, set_pct=12):
-    ne, ee = rng.choice(EXPIRES)
+def base_script(rng, nkeys=None, par=None, jcs=BIG_JCS, nacts=None, horizon_mult=12, set_pct=12, expire=None):
+    ne, ee = expire or rng.choice(EXPIRES)
     nkeys = nkeys or rng.range(1, 4)
     sc = Script(ne, ee, par or rng.choice([1, 2, 4]), jcs, pick_keys(rng, nkeys), rand_ld(rng, ne, nkeys))
+    sc.opts = random_opts(rng, sc.ne, sc.ee, sc.par, sc.jcs)
     used = set()
     horizon = horizon_mult * ne
     for _ in range(nacts or rng.range(3, 10)):
@@ -770,6 +1044,35 @@ def base_script(rng, nkeys=None, par=None, jcs=BIG_JCS, nacts=None, horizon_mult
 
 
 BOUNDARY_OFFSETS = [(-1, "E-1"), (0, "E"), (1, "E+1")]
+
+
+def multi_scripts(rng, n, nacts=(3, 7), horizon_mult=6):
+    """Several caches in one process with different option lists: the first one sets every option to a non-default
+    value, the later ones leave each of expiry / parallel / jobChanSize at its default (option omitted) half of the
+    time; the caches often use the very same typed keys."""
+    out = []
+    for _ in range(n):
+        subs = []
+        with_default = rng.chance(2, 3)     # some cache of this process is created without WithExpire
+        pool = EXPIRES_LARGE if with_default else EXPIRES
+        m = rng.choice([2, 2, 3])
+        dflt = rng.range(1, m - 1) if with_default else -1
+        for i in range(m):
+            if i == 0:
+                exp, par, jcs = rng.choice(pool), rng.choice([2, 4]), rng.choice([48, 64, 200])
+            else:
+                exp = DEFAULT_EXPIRE if (i == dflt or (with_default and rng.chance(1, 3))) else rng.choice(pool)
+                par = DEFAULTS["par"] if rng.chance(1, 2) else rng.choice([2, 4])
+                jcs = DEFAULTS["jcs"] if rng.chance(1, 2) else rng.choice([32, 64])   # never full: the scripts have < 32 Loads
+            sc = base_script(rng, par=par, jcs=jcs, nacts=rng.range(*nacts), horizon_mult=horizon_mult, expire=exp)
+            if i > 0 and rng.chance(1, 2) and len(subs[0].keys) >= len(sc.keys):
+                sc.keys = subs[0].keys[:len(sc.keys)]
+            subs.append(sc)
+        if rng.chance(1, 3):
+            subs.reverse()   # the all-default cache first, the configured ones later
+        out.append(Multi(subs))
+    out.sort(key=lambda mu: 0 if any(sc.ne >= 1000000 for sc in mu.subs) else 1)   # stable: the 1 s scale first (run_ft)
+    return out
 
 
 def add_boundary_probes(rng, sc, log, kinds, density=3):
@@ -797,6 +1100,8 @@ def add_boundary_probes(rng, sc, log, kinds, density=3):
                             sc.add(t, kind, rng.choice(cands))
                             continue
                     sc.add(t, kind, k)
+                    if kind == "g" and rng.chance(1, 2):
+                        sc.add(t, "G", k)   # Get1 next to Get2 at one instant: must agree
     return sc
 
 
@@ -889,13 +1194,16 @@ def refine_scripts(binary, scripts, rounds, rng, adder=None):
     adder = adder or add_boundary_probes
     for kinds in rounds:
         outs = run_ft(binary, [s.line() for s in scripts])
-        for sc, out in zip(scripts, outs):
-            if out.startswith("PANIC") or out == "BADCASE":
+        for item, whole in zip(scripts, outs):
+            if whole.startswith("PANIC") or whole == "BADCASE":
                 continue
-            log = split_trials(out)[0]
-            if log.hang or log.bad:
-                continue
-            adder(rng, sc, log, kinds)
+            for sc, out in split_outputs(item, whole):
+                if out.startswith("PANIC"):
+                    continue
+                log = split_trials(out)[0]
+                if log.hang or log.bad:
+                    continue
+                adder(rng, sc, log, kinds)
     return scripts
 
 
